@@ -60,6 +60,8 @@ package network
 //@   ensures [no-receiver] dtnet.receiver == nil ==> called(Stream.Reset, _) && never(FromNet)
 //@   ensures [malformed] calls(FromNet) >= 1 && ret_last(FromNet, 1) != nil && ret_last(FromNet, 1) != io.EOF && ret_last(FromNet, 1) != io.ErrUnexpectedEOF ==>
 //@       calls(Stream.Reset) >= 1 && spawned(Receiver.ReceiveError)
+//@   ensures [clean-end-is-not-an-error] {C15} dtnet.receiver != nil && calls(FromNet) >= 1 && (ret_last(FromNet, 1) == io.EOF || ret_last(FromNet, 1) == io.ErrUnexpectedEOF) ==>
+//@       !spawned(Receiver.ReceiveError) -- the peer closing the stream after its last message is the normal end, not a receive error
 
 // lock effects of this package's interfaces (C20)
 //@ extern func (network.Receiver).ReceiveRequest
